@@ -314,22 +314,16 @@ def rule_R11_2(ctx):
                 # error must include both documented rejections over the
                 # values it reports: start > end and end > len
                 fields = guards.field_terms(f, kd, aops)
+                # (relations are pooled over every site of this error in the
+                # function: the rejections may be written as separate returns)
                 rels = []
-                for pb in f.preds(bb):
-                    if f.term(pb)["k"] != "switch":
+                for f2, bb2, kd2, aops2, sp2 in err_sites(prog, variant):
+                    if f2.path != f.path:
                         continue
-                    pinfo = f.switch_info(pb)
-                    if not pinfo or pinfo["kind"] != "bool":
+                    flds2 = guards.field_terms(f2, kd2, aops2)
+                    if flds2 != fields:
                         continue
-                    rv = f.bool_def(pinfo["on"])
-                    if not rv or rv[0] != "bin" or rv[1] not in guards.NEG:
-                        continue
-                    t_true = pinfo["otherwise"]
-                    for v_, tgt_ in pinfo["cases"]:
-                        if v_ is True:
-                            t_true = tgt_
-                    op_ = rv[1] if t_true == bb else guards.NEG[rv[1]]
-                    rels.append((op_, guards.var_of(f, rv[2]), guards.var_of(f, rv[3])))
+                    rels += [x for x in guards.entry_relations(f2, bb2) if x[0] != "other"]
                 has_order = any(guards.matches(x, ("Gt", "start", "end"), fields) for x in rels)
                 has_upper = any(guards.matches(x, ("Gt", "end", ("len",)), fields) for x in rels)
                 r.inst("%s: %s guarded by %s" % (f.path, variant, [guards.rel_str(*x) for x in rels]))
